@@ -270,7 +270,12 @@ func SetVal(vals []Value) Value {
 	var markSets []ValueMarks
 
 	for i, val := range vals {
-		if unmarkedVal, marks := val.UnmarkDeep(); len(marks) > 0 {
+		// UnmarkDeep rebuilds the whole value, including any nested sets
+		// (through this function again), so it must only run when there is
+		// something to unmark: otherwise building a set nested n levels deep
+		// costs 2^n.
+		if val.ContainsMarked() {
+			unmarkedVal, marks := val.UnmarkDeep()
 			val = unmarkedVal
 			markSets = append(markSets, marks)
 		}
@@ -301,7 +306,12 @@ func CanSetVal(vals []Value) bool {
 	var markSets []ValueMarks
 
 	for _, val := range vals {
-		if unmarkedVal, marks := val.UnmarkDeep(); len(marks) > 0 {
+		// UnmarkDeep rebuilds the whole value, including any nested sets
+		// (through this function again), so it must only run when there is
+		// something to unmark: otherwise building a set nested n levels deep
+		// costs 2^n.
+		if val.ContainsMarked() {
+			unmarkedVal, marks := val.UnmarkDeep()
 			val = unmarkedVal
 			markSets = append(markSets, marks)
 		}
